@@ -288,6 +288,23 @@ def gen_vmx(rng, tier, adversarial):
     return case
 
 
+def repeat_view(obj, first):
+    """the disk list is a function of the stored configuration: asking again (after a complete and after a partial
+    iteration) gives the same list.  -> None when stable (or when the first call already raises), else a description"""
+    if not isinstance(first, list):
+        return None
+    try:
+        it = iter(obj.disks())
+        next(it, None)
+        second = list(obj.disks())
+        third = list(obj.disks())
+    except Exception as e:  # noqa: BLE001
+        return f"raised {type(e).__name__} on a repeated call"
+    if first != second or second != third:
+        return f"first call {first!r}, later calls {second!r} / {third!r}"
+    return None
+
+
 class VmxSuite(Suite):
     name = "vmx"
     shard = 25
@@ -305,7 +322,8 @@ class VmxSuite(Suite):
         v = guarded(lambda: VMX.parse(case["text"]))
         if exc_of(v):
             return {"parse": v}
-        return {"parse": None, "attr": [list(kv) for kv in v.attr.items()], "disks": guarded(lambda: list(v.disks()))}
+        d = guarded(lambda: list(v.disks()))
+        return {"parse": None, "attr": [list(kv) for kv in v.attr.items()], "disks": d, "repeat": repeat_view(v, d)}
 
     def coq_term(self, case):
         return (f"let a := parse_dictionary {cp(case['text'])} in "
@@ -323,6 +341,8 @@ class VmxSuite(Suite):
         wf = to_bool(wf)
         if impl_res["parse"] is not None:
             return [Finding("impl_vs_spec", f"VMX.parse raised on a dictionary: {impl_res['parse']}", "vmx:parse:exc")]
+        if impl_res.get("repeat"):
+            fs.append(Finding("impl_vs_spec", f"VMX.disks() is not stable across calls: {impl_res['repeat']}", "vmx:disks:repeat"))
         if impl_res["attr"] != m_attr:
             fs.append(Finding("impl_vs_model", f"parsed dictionary differs: impl {impl_res['attr'][:6]} model {m_attr[:6]}",
                               "vmx:parse:dict"))
@@ -500,7 +520,8 @@ class XmlSuite(Suite):
         if exc_of(made):
             return {"ctor": made}
         obj, root = made
-        return {"ctor": None, "tree": dump_tree(root), "disks": guarded(lambda: list(obj.disks()))}
+        d = guarded(lambda: list(obj.disks()))
+        return {"ctor": None, "tree": dump_tree(root), "disks": d, "repeat": repeat_view(obj, d)}
 
     def term(self, root_term):       # -> Gallina: (model result, spec list, wf)
         raise NotImplementedError
@@ -528,6 +549,8 @@ class XmlSuite(Suite):
                                 f"{self.fmt}:parse")]
             return []
         fs = []
+        if impl_res.get("repeat"):
+            fs.append(Finding("impl_vs_spec", f"disks() is not stable across calls: {impl_res['repeat']}", f"{self.fmt}:disks:repeat"))
         model, spec, wf = self.decode(coq_val)
         if impl_res["ctor"] is None and impl_res["tree"] != tree:
             fs.append(Finding("impl_vs_model", "the entry point's element tree differs from the oracle parser's tree",
